@@ -398,6 +398,9 @@ SEMAPHORE unused_slots;
 MUTEX queue_mutex;
 MUTEX output_mutex;
 
+// Set (under output_mutex) when some scanning thread reported an error.
+static bool scan_error_reported = false;
+
 MODULE_DATA* modules_data_list = NULL;
 
 static int file_queue_init()
@@ -1358,6 +1361,7 @@ static void* scanning_thread(void* param)
         cli_mutex_lock(&output_mutex);
         _ftprintf(stderr, _T("error scanning %s: "), file_path);
         print_scanner_error(args->scanner, result);
+        scan_error_reported = true;
         cli_mutex_unlock(&output_mutex);
       }
 
@@ -1713,7 +1717,7 @@ int _tmain(int argc, const char_t** argv)
       fclose(yr_verif_trace);
 #endif
 
-    if (result != ERROR_SUCCESS)
+    if (result != ERROR_SUCCESS || scan_error_reported)
       exit_with_code(EXIT_FAILURE);
   }
   else
